@@ -20,6 +20,7 @@
 #include <cstring>
 #include <functional>
 #include <map>
+#include <set>
 #include <sstream>
 #include <string>
 #include <vector>
@@ -319,6 +320,9 @@ public:
 // ---- tiny argument parser: --key value / --flag ----
 struct Args {
     std::map<std::string, std::string> kv;
+    mutable std::set<std::string> used;     // options the harness has looked at
+    // an option the harness never looked at would silently shrink or change the explored universe: harness error
+    void require_all_used() const { for (auto &p : kv) if (!used.count(p.first)) { fprintf(stderr, "harness error: option --%s is not understood by this harness\n", p.first.c_str()); exit(2); } }
     Args(int argc, char **argv) {
         for (int i = 1; i < argc; ++i) {
             std::string a = argv[i];
@@ -329,8 +333,9 @@ struct Args {
             }
         }
     }
-    bool has(const std::string &k) const { return kv.count(k) > 0; }
+    bool has(const std::string &k) const { used.insert(k); return kv.count(k) > 0; }
     std::string get(const std::string &k, const std::string &d = "") const {
+        used.insert(k);
         auto it = kv.find(k); return it == kv.end() ? d : it->second;
     }
     long geti(const std::string &k, long d) const { return has(k) ? atol(get(k).c_str()) : d; }
